@@ -22,24 +22,28 @@ Qed.
 Lemma filter_ext' {A} (p q : A -> bool) l : (forall x, p x = q x) -> filter p l = filter q l.
 Proof. intros H. induction l as [|x r IH]; cbn [filter]; [reflexivity|]. rewrite H, IH. reflexivity. Qed.
 
-Lemma update_delete_filter fresh : forall cur,
-  update_delete fresh cur =
-  filter (fun h => negb (existsb (fun e => negb (skip_update_header (hdr_id e)) && deleted_by e h) fresh)) cur.
+Lemma update_delete_sk_filter sk fresh : forall cur,
+  update_delete_sk sk fresh cur =
+  filter (fun h => negb (existsb (fun e => negb (sk e) && deleted_by e h) fresh)) cur.
 Proof.
-  induction fresh as [|e r IH]; intros cur; cbn [update_delete existsb].
+  induction fresh as [|e r IH]; intros cur; cbn [update_delete_sk existsb].
   - cbn [negb]. now rewrite filter_true.
-  - destruct (skip_update_header (hdr_id e)) eqn:Es; cbn [negb andb orb].
+  - destruct (sk e) eqn:Es; cbn [negb andb orb].
     + apply IH.
     + rewrite IH, filter_filter. apply filter_ext'. intros h.
       destruct (deleted_by e h); cbn [negb andb orb]; reflexivity.
 Qed.
+Lemma update_delete_filter fresh cur :
+  update_delete fresh cur =
+  filter (fun h => negb (existsb (fun e => negb (skip_entry fresh e) && deleted_by e h) fresh)) cur.
+Proof. unfold update_delete. apply update_delete_sk_filter. Qed.
 
 (* the index-tracking merge is HttpHeader::update (CondModel.hdr_update) *)
 Theorem merged_tagged_is_update old fresh : map snd (merged_tagged old fresh) = hdr_update old fresh.
 Proof.
   unfold merged_tagged, hdr_update, update_added. rewrite map_app.
-  rewrite (filter_map_snd (fun h => negb (existsb (fun e => negb (skip_update_header (hdr_id e)) && deleted_by e h) fresh))).
-  rewrite (filter_map_snd (fun h => negb (skip_update_header (hdr_id h)))).
+  rewrite (filter_map_snd (fun h => negb (existsb (fun e => negb (skip_entry fresh e) && deleted_by e h) fresh))).
+  rewrite (filter_map_snd (fun h => negb (skip_entry fresh h))).
   rewrite !map_snd_tag_from. now rewrite update_delete_filter.
 Qed.
 
@@ -59,29 +63,94 @@ Proof.
   - right. unfold update_added in H4. apply filter_In in H4. tauto.
 Qed.
 
-(* the 304's own Connection field is part of the merged header (it is not skipped by update), so whatever
-   it names is removed before relaying *)
-Theorem reval_connection_of_304_is_honoured old fresh c :
-  In c fresh -> (hdr_id c =? ID_CONNECTION) = true ->
-  In c (hdr_update old fresh).
+(* ---- repaired update() (/repo 5d5369d): the 304's hop-by-hop fields, its Connection field included, are skipped ---- *)
+Lemma connection_is_hopbyhop : is_hopbyhop ID_CONNECTION = true.
+Proof. vm_compute. reflexivity. Qed.
+Lemma connection_not_other : (ID_CONNECTION =? hdr_OTHER) = false.
+Proof. vm_compute. reflexivity. Qed.
+Lemma connection_not_pa : (ID_CONNECTION =? ID_PROXY_AUTHENTICATE) = false.
+Proof. vm_compute. reflexivity. Qed.
+
+(* a non-skipped 304 field never deletes a stored Connection entry *)
+Lemma connection_not_deleted fresh e c :
+  hdr_id c = ID_CONNECTION -> skip_entry fresh e = false -> deleted_by e c = false.
 Proof.
-  intros Hin Hid. unfold hdr_update. apply in_or_app. right. unfold update_added. apply filter_In. split; [exact Hin|].
-  unfold skip_update_header. apply N.eqb_eq in Hid. rewrite Hid.
-  assert (E : (ID_CONNECTION =? ID_VARY) = false) by (vm_compute; reflexivity). now rewrite E.
+  intros Hc Hs. unfold skip_entry in Hs. apply orb_false_iff in Hs. destruct Hs as [Hs _].
+  apply orb_false_iff in Hs. destruct Hs as [_ Hh].
+  unfold deleted_by. destruct (hdr_id e =? hdr_OTHER) eqn:Eo; cbn [negb].
+  - destruct (ci_eqb (h_name c) (h_name e)) eqn:Ec; [|reflexivity].
+    exfalso. assert (Hid : hdr_id c = hdr_id e) by (unfold hdr_id; now apply lookup_id_ci).
+    apply N.eqb_eq in Eo. rewrite <- Hid, Hc in Eo. pose proof connection_not_other as Hn.
+    apply N.eqb_neq in Hn. contradiction.
+  - destruct (hdr_id c =? hdr_id e) eqn:Ei; [|reflexivity]. exfalso.
+    apply N.eqb_eq in Ei. rewrite <- Ei, Hc, connection_is_hopbyhop in Hh. discriminate.
+Qed.
+Lemma existsb_all_false {A} (f : A -> bool) l : (forall x, f x = false) -> existsb f l = false.
+Proof. intros H. induction l as [|x r IH]; cbn [existsb]; [reflexivity|]. now rewrite H, IH. Qed.
+Lemma connection_survives_pred fresh c :
+  hdr_id c = ID_CONNECTION ->
+  negb (existsb (fun e => negb (skip_entry fresh e) && deleted_by e c) fresh) = true.
+Proof.
+  intros Hc. apply negb_true_iff. apply existsb_all_false. intros e.
+  destruct (skip_entry fresh e) eqn:Es; cbn [negb andb]; [reflexivity|]. now apply (connection_not_deleted fresh).
 Qed.
 
-(* ... but the property itself fails on this path: a stored field nominated by the stored response's own
-   Connection field is relayed once a 304 with another Connection field has been merged *)
+(* the stored Connection entries survive the update: they keep nominating the stored hop-by-hop fields *)
+Theorem reval_stored_connection_survives old fresh c :
+  In c old -> hdr_id c = ID_CONNECTION -> In c (hdr_update old fresh).
+Proof.
+  intros Hin Hc. unfold hdr_update. apply in_or_app. left. rewrite update_delete_filter.
+  apply filter_In. split; [exact Hin|]. now apply connection_survives_pred.
+Qed.
+
+(* ... and none of the 304's fields becomes a Connection entry of the merged header *)
+Lemma added_no_connection fresh e : In e (update_added fresh) -> (hdr_id e =? ID_CONNECTION) = false.
+Proof.
+  unfold update_added. intros H. apply filter_In in H. destruct H as [_ Hs]. apply negb_true_iff in Hs.
+  unfold skip_entry in Hs. apply orb_false_iff in Hs. destruct Hs as [Hs _]. apply orb_false_iff in Hs. destruct Hs as [_ Hh].
+  destruct (hdr_id e =? ID_CONNECTION) eqn:E; [|reflexivity]. apply N.eqb_eq in E.
+  rewrite E, connection_is_hopbyhop in Hh. discriminate.
+Qed.
+Lemma filter_none' {A} (p : A -> bool) l : (forall x, In x l -> p x = false) -> filter p l = [].
+Proof.
+  induction l as [|x r IH]; intros H; [reflexivity|]. cbn [filter]. rewrite (H x (or_introl eq_refl)). apply IH.
+  intros y Hy. apply H. now right.
+Qed.
+(* so the Connection entries the response filter sees after the merge are exactly the stored ones, in order *)
+Lemma merged_connection_entries old fresh :
+  filter (fun h => hdr_id h =? ID_CONNECTION)
+         (filter (fun h => negb (hdr_id h =? ID_PROXY_AUTHENTICATE)) (hdr_update old fresh)) =
+  filter (fun h => hdr_id h =? ID_CONNECTION) old.
+Proof.
+  rewrite filter_filter. unfold hdr_update. rewrite filter_app, update_delete_filter, filter_filter.
+  rewrite (filter_none' _ (update_added fresh)).
+  2:{ intros e He. rewrite (added_no_connection fresh e He). now rewrite andb_false_r. }
+  rewrite app_nil_r. apply filter_ext'. intros h.
+  destruct (hdr_id h =? ID_CONNECTION) eqn:Ec; [|now rewrite !andb_false_r].
+  apply N.eqb_eq in Ec. rewrite (connection_survives_pred fresh h Ec). rewrite Ec, connection_not_pa. reflexivity.
+Qed.
+Lemma merged_conn_value old fresh :
+  conn_value (filter (fun h => negb (hdr_id h =? ID_PROXY_AUTHENTICATE)) (hdr_update old fresh)) = conn_value old.
+Proof. unfold conn_value. now rewrite merged_connection_entries. Qed.
+
+(* the property on the revalidation path (formerly refuted, now a theorem of the repaired code): a stored field that the
+   stored response's own Connection field nominates is never relayed after a 304 has been merged, whatever the 304
+   carries. No extra hypothesis is needed. *)
+Theorem reval_stored_field_dropped old fresh e :
+  In e old -> is_member (conn_value old) (h_name e) = true ->
+  ~ In e (resp_filter false (hdr_update old fresh)).
+Proof.
+  intros _ Hm Hin. apply resp_filter_sound in Hin. destruct Hin as (_ & _ & H3 & _).
+  rewrite merged_conn_value in H3. congruence.
+Qed.
+
+(* non-vacuity / regression witness: the scenario of the former finding *)
 Definition wit_old : list hdr :=
   [ {| h_name := map N.of_nat [67;111;110;110;101;99;116;105;111;110]%nat; h_value := map N.of_nat [88;45;70;111;111]%nat |};
     {| h_name := map N.of_nat [88;45;70;111;111]%nat; h_value := [118] |} ].
 Definition wit_fresh : list hdr :=
   [ {| h_name := map N.of_nat [67;111;110;110;101;99;116;105;111;110]%nat; h_value := map N.of_nat [120;45;111;116;104;101;114]%nat |} ].
-
-Theorem reval_stored_field_refuted :
-  exists old fresh e, In e old /\ is_member (conn_value old) (h_name e) = true /\
-                      In e (resp_filter false (hdr_update old fresh)).
-Proof.
-  exists wit_old, wit_fresh, (nth 1 wit_old {| h_name := []; h_value := [] |}).
-  split; [vm_compute; auto|]. split; [vm_compute; reflexivity|]. vm_compute. auto.
-Qed.
+Lemma reval_witness_now_filtered :
+  is_member (conn_value wit_old) (h_name (nth 1 wit_old {| h_name := []; h_value := [] |})) = true /\
+  resp_filter false (hdr_update wit_old wit_fresh) = [].
+Proof. vm_compute. split; reflexivity. Qed.
